@@ -298,7 +298,7 @@ def mentions(s):
     if k == "call": return [a[1] for a in s[1] if a[0] == "ref"]
     if k == "block": return [r for x in s[1] for r in mentions(x)]
     if k == "if": return ([s[1][1]] if is_cref(s[1]) else []) + [r for x in s[2] + s[3] for r in mentions(x)]
-    if k == "while": return [r for x in s[2] for r in mentions(x)]
+    if k == "while": return ([s[1][1]] if is_cref(s[1]) else []) + [r for x in s[2] for r in mentions(x)]
     return []
 def decls_deep(s):
     k = s[0]
@@ -460,10 +460,20 @@ class Gen:
         if self.rng.random() < 0.6: return c[-1]
         return self.rng.choice(c)
 
+    def pick_cond(self, refs, vars_, pref, pplace):
+        """condition: a call taking an i32 reference in scope (a use of the reference), a comparison reading a place, or a flag"""
+        y = self.rng.random()
+        if y < pref:
+            r = self.pick_ref(refs, lambda r: self.rtypes[r][0] == "i32")
+            if r is not None: return ("ref", r)
+        if y < pref + pplace:
+            return self.pick_place(vars_, want=("i32",))
+        return None
+
     def gen_if(self, depth, refs, vars_, sub, chain):
         """if / else-if chain (chain = number of else-if arms, 0..3) / plain else / no else"""
         rng = self.rng
-        c = self.pick_place(vars_, want=("i32",)) if rng.random() < 0.5 else None
+        c = self.pick_cond(refs, vars_, 0.3, 0.35)
         b1 = self.block(depth + 1, refs, vars_, sub, want_ret=rng.random() < 0.3)
         neg = rng.random() < 0.3
         if chain > 0:
@@ -530,7 +540,7 @@ class Gen:
                 elif kind == "if":
                     out.append(self.gen_if(depth, refs, vars_, sub, rng.choice([0, 1, 1, 2, 3])))
                 else:
-                    c = self.pick_place(vars_, want=("i32",)) if rng.random() < 0.4 else None
+                    c = self.pick_cond(refs, vars_, 0.2, 0.3)
                     n_ = self.ncnt; self.ncnt += 1
                     b = self.block(depth + 1, refs, vars_, sub)
                     out.append(("var", n_)); out.append(("while", c, b + [("write", (n_, ()), 0)], n_))
@@ -593,6 +603,14 @@ def scenario_programs(allow_ret_param):
         if depth == 0: return t
         inner = chain(depth - 1, arm, last_else)
         return ("if", None, [("read", B)], [inner], True, "elif")
+    def cchain(depth, c):
+        """the reference is used only by the condition of the last else-if"""
+        if depth == 0: return ("if", c, [("read", B)], [], False, "noelse")
+        return ("if", None, [("read", B)], [cchain(depth - 1, c)], True, "elif")
+    for d in (0, 1, 2):
+        out.append(P_([("let", 0, True, A), ("write", A, 20), cchain(d, ("ref", 0))], rt={0: i32m}))
+        out.append(P_([("let", 0, False, A), ("read", A), cchain(d, ("ref", 0)), ("write", A, 20)], rt={0: i32s}))
+    out.append(P_([("let", 0, False, A), ("var", 1000), ("while", ("ref", 0), [("write", A, 20), ("write", (1000, ()), 0)], 1000)], rt={0: i32s}))
     for d in (1, 2, 3):
         out.append(P_([("let", 0, True, A), ("wt", 0, 11), ("write", A, 20), chain(d, [("wt", 0, 30)])], rt={0: i32m}))     # bad_elseif
         out.append(P_([("let", 0, False, A), ("write", A, 20), chain(d, [("use", 0)])], rt={0: i32s}))                      # bad_shared_elseif
